@@ -213,6 +213,18 @@ func ext۰sort۰Ints(fr *frame, args []value) value {
 }
 func ext۰sort۰Strings(fr *frame, args []value) value {
 	x := args[0].([]value)
+	for _, e := range x {
+		if _, ok := e.(string); !ok {
+			// gosym: symbolic strings: insertion sort, comparisons decided by the solver (equal strings are
+			// indistinguishable, so the algorithm's instability cannot be observed)
+			for i := 1; i < len(x); i++ {
+				for j := i; j > 0 && compareV(toBytes(x[j]), toBytes(x[j-1])) < 0; j-- {
+					x[j], x[j-1] = x[j-1], x[j]
+				}
+			}
+			return nil
+		}
+	}
 	sort.Slice(x, func(i, j int) bool {
 		return x[i].(string) < x[j].(string)
 	})
